@@ -340,12 +340,12 @@ def rule_nul(X, R, rule="R20-nul"):
         if tgt is not None:
             b_, root_, fr_, ms = sem.provenance(S, a_["l"], x.frame)
             src = tgt.expr
-            idx = [i_ for i_ in exprs(src, "Index")] if src is not None else []
+            idx = [i_ for i_ in exprs_deep(src, "Index")] if src is not None else []
             # loop variable: the iterated expression holds the slice
             if not idx:
                 for ls, pat, it in sem.for_loops(S):
                     if any(q.get("k") == "PBinding" and ls.frame.binds.get(q["id"]) is tgt for q in walk(pat or {})):
-                        idx = [i_ for i_ in exprs(it, "Index")]
+                        idx = [i_ for i_ in exprs_deep(it, "Index")]
             if idx:
                 rng = strip(idx[0]["idx"])
                 fl = {f["name"]: local_name(f["e"]) for f in rng.get("fields", [])} if rng.get("k") == "Struct" else {}
